@@ -1340,7 +1340,17 @@ func (c *Core) handleRequest(ctx context.Context, req *logical.Request) (retResp
 				nsActiveCtx := namespace.ContextWithNamespace(c.activeContext.Load(), ns)
 				leaseID, err := c.expiration.CreateOrFetchRevocationLeaseByToken(nsActiveCtx, te)
 				if err == nil {
-					err = c.expiration.LazyRevoke(ctx, leaseID)
+					// The token's lease lives in the token's namespace, which
+					// is not the request's namespace when a token of a parent
+					// namespace is used on a path of a child namespace.
+					var tokenNS *namespace.Namespace
+					tokenNS, err = c.NamespaceByID(ctx, te.NamespaceID)
+					if err == nil && tokenNS == nil {
+						err = namespace.ErrNoNamespace
+					}
+					if err == nil {
+						err = c.expiration.LazyRevoke(namespace.ContextWithNamespace(ctx, tokenNS), leaseID)
+					}
 				}
 				if err != nil {
 					c.logger.Error("failed to revoke token", "error", err)
